@@ -59,6 +59,11 @@ def parse_url(url):
 HOSTS_PLAIN = ['a.example', 'b.example', 'sub.a.example', 'c.test', '10.0.0.5', '[::1]', '[2001:db8::1]', 'localhost']
 HOSTS_ODD = ['A.Example', 'xn--bcher-kva.example', 'bücher.example', '0x7f.1', '017700000001', 'a.example.',
              'h．example', 'a\x7fb.example', '[2001:DB8:0:0::0001]', '[::ffff:1.2.3.4]']
+# IPv6 literals with zone identifiers and odd bracket contents (py >= 3.9 ipaddress keeps any text after '%'
+# as scope id; the IPv6 branch of parse_hostname runs no forbidden-character check): all must be REJECTED
+HOSTS_IPV6_ODD = ['[fe80::1%eth0]', '[fe80::1%25eth0]', '[fe80::1%25eth 0]', '[fe80::1%a b]', '[fe80::1%25a\tb]', '[fe80::1%25]',
+                  '[fe80::1%25é]', '[FE80::1%25ETH0]', '[fe80::1%25a]b]', '[fe80::1%25a[b]', '[fe80::1%2525x y]', '[::1 ]', '[ ::1]',
+                  '[::1%25 ]', '[fe80::1%25a/b]', '[fe80::1%25a@b]', '[fe80::1%25a:80]', '[v1.fe80::a]', '[::1]x', '[::ffff:1.2.3.4%25z z]']
 NASTY = ['%0D%0A', '%0d%0aX-Injected:%201', '%20', ' ', '%00', 'é', '€', '\U0001f600', '\x7f', '\x80', '%',
          '%zz', '+', '"', '<', '>', '`', '{', '}', '|', '\\', '^', '~', '[', ']', ';', '=', '&', '@', ':', ' ',
          '\x85', '\xa0', '%25', '%2F', '%3f', '%23', '\udc80']
@@ -80,7 +85,7 @@ def gen_component(rng, allow):
 def gen_url(rng, hosts=None, simple=False):
     """A raw URL string plus the parts it was composed from."""
     scheme = rng.choice(['http', 'http', 'https', 'HTTP', 'hTTps']) if not simple else rng.choice(['http', 'https'])
-    host = rng.choice(hosts or (HOSTS_PLAIN + HOSTS_PLAIN + HOSTS_ODD))
+    host = rng.choice(hosts or (HOSTS_PLAIN + HOSTS_PLAIN + HOSTS_ODD + HOSTS_IPV6_ODD[:rng.choice([0, 0, 0, 0, len(HOSTS_IPV6_ODD)])]))
     port = rng.choice([None, None, None, 80, 443, 8080, 81, 65535, 0, 8443])
     user = pw = None
     r = rng.random()
@@ -503,7 +508,8 @@ def session_line(res, max_redirects, use_jar, factory_pairs, login, method, prox
         for st, hl, kind, c in res.get('rmreplies', []):
             toks.append('%d:%d:%d' % (st, 1 if hl else 0, kind))
             toks.append(url_token(c) if c is not None else '~')
-    toks += [str(max_redirects), 'T' if proxy else 'F', 'T' if use_jar else 'F', fields_token(factory_pairs),
+    flags = ('T' if proxy else 'F') + {'--retry-connrefused': 'c', '--retry-dns-error': 'd'}.get(res.get('retry'), '')
+    toks += [str(max_redirects), flags, 'T' if use_jar else 'F', fields_token(factory_pairs),
              enc(method), fields_token(res['init_pairs']), enc((login or ('', ''))[0] or ''),
              enc((login or ('', ''))[1] or ''), url_token(urlc(res['init_url'])),
              enc_lists([(a or '') for a in res['answers']])]
@@ -564,7 +570,7 @@ def model_replies(log, replies, loads_iter):
     return out
 
 
-def run_crawl(url, replies, tries, max_redirects, login=None, timeout=20, robots=None, cap=None):
+def run_crawl(url, replies, tries, max_redirects, login=None, timeout=20, robots=None, cap=None, host_fail=None, retry=None):
     """Builder(args).build().run() of the REAL application (pipeline, URL table, processor, rules,
     filters, web client) against the scripted servers.  Returns the visits of `url` as seen at the
     URL table: [(requests issued during the visit, status after, try_count after)], plus the
@@ -607,6 +613,8 @@ def run_crawl(url, replies, tries, max_redirects, login=None, timeout=20, robots
                            bool(increment_try_count), len(script.rlog)))
             return r
 
+    attempts = [0]        # connection attempts that never became a connection (host_fail)
+
     class Res(NamedResolver):
         def __init__(self, *a, **k):
             super().__init__()
@@ -614,6 +622,14 @@ def run_crawl(url, replies, tries, max_redirects, login=None, timeout=20, robots
         @classmethod
         def new_cache(cls):
             return None
+
+        @asyncio.coroutine
+        def resolve(self, host):
+            if host_fail == 'dns':
+                from wpull.errors import DNSNotFound
+                attempts[0] += 1
+                raise DNSNotFound('DNS resolution failed: scripted')
+            return (yield from NamedResolver.resolve(self, host))
 
     from wpull.processor.rule import FetchRule
     rejects = []
@@ -627,11 +643,20 @@ def run_crawl(url, replies, tries, max_redirects, login=None, timeout=20, robots
 
     net = fakenet.FakeNet()
     net.default = lambda: ScriptServer(script)
+    if host_fail == 'refused':
+        # nobody listens: every connection attempt of every host is refused
+        class RefusingNet(fakenet.FakeNet):
+            async def open_connection(self, host=None, port=None, **kwargs):
+                attempts[0] += 1
+                raise ConnectionRefusedError(111, 'Connection refused')
+        net = RefusingNet()
     tmp = tempfile.mkdtemp(prefix='c18-')
     argv = [url] + (['--recursive', '--level', '1'] if robots else ['--no-robots']) + ['--tries', str(tries), '--max-redirect', str(max_redirects), '--waitretry', '0',
             '-q', '--directory-prefix', tmp, '--delete-after', '--no-check-certificate', '--html-parser', 'html5lib']
     if login:
         argv += ['--http-user', login[0], '--http-password', login[1]]
+    if retry:
+        argv.append(retry)
     args = AppArgumentParser().parse_args(argv)
     loop = compat.new_loop()
     exit_code = None
@@ -700,8 +725,11 @@ def run_crawl(url, replies, tries, max_redirects, login=None, timeout=20, robots
         rloads, ploads = iter([]), iter(loads)
     mreplies = model_replies(script.log, replies, ploads)
     rmreplies = model_replies(script.rlog, robots['replies'], rloads) if robots else []
+    if host_fail:
+        # no request ever reaches a server: the model gets "no connection" for every attempt
+        mreplies = [(0, False, 5 if host_fail == 'refused' else 6, None)] * (max(tries, 1) + 4)
     from wpull.url import URLInfo
     return {'visits': visits, 'events': events, 'hops': list(script.log), 'mreplies': mreplies, 'exit': exit_code,
             'hung': hung, 'capped': capped[0], 'checkouts': len([e for e in events if e[0] == 'out']),
-            'rhops': list(script.rlog), 'rmreplies': rmreplies, 'robots': robots,
+            'rhops': list(script.rlog), 'rmreplies': rmreplies, 'robots': robots, 'retry': retry, 'attempts': attempts[0],
             'rejects': rejects, 'answers': [], 'init_pairs': [], 'init_url': URLInfo.parse(url)}
